@@ -73,6 +73,7 @@ type tally struct {
 	children    int
 	notFired    int
 	spurious    int // fault runs with additional, not enumerated machine losses
+	bootFired map[string]bool // program|ordinals|variant of fired boot-loss cases
 	// spaced-losses histories
 	scenarioRuns, scenarioRounds, scenarioKills int
 	scenarioFull                                map[string]bool // histories in which all rounds ran with both kills
@@ -85,7 +86,7 @@ type tally struct {
 }
 
 var tl = &tally{firedKeys: map[string]bool{}, firedFine: map[string]bool{}, pairFired: map[string]bool{},
-	outcomes: map[string]int{}, perMethod: map[string]int{}, scenarioFull: map[string]bool{}}
+	outcomes: map[string]int{}, perMethod: map[string]int{}, scenarioFull: map[string]bool{}, bootFired: map[string]bool{}}
 
 func main() {
 	flag.Parse()
@@ -248,6 +249,33 @@ func main() {
 		}
 		progSizes[p.name] = len(singles) - n0
 	}
+	// machines lost while booting (at their first Worker.FuncLocations call):
+	// the j-th machine started, j = 1..cluster size+1, and the first 2 and the
+	// first 3 machines together; quick: smallest program, thorough: two smallest
+	nBoot := 1
+	if r.Thorough() {
+		nBoot = 2
+	}
+	bootCases := 0
+	for _, p := range progs[:min(nBoot, len(progs))] {
+		n := len(infos[p.name].hosts)
+		var sets [][]int
+		for j := 1; j <= n+1; j++ {
+			sets = append(sets, []int{j})
+		}
+		sets = append(sets, []int{1, 2}, []int{1, 2, 3})
+		for _, set := range sets {
+			for _, v := range []string{"before", "after"} {
+				for _, m := range modes {
+					c := fcase{ID: id, Prog: p.name, Mode: m, Scenario: "boot", Boot: set, BootVariant: v}
+					id++
+					singles = append(singles, c)
+					singleByID[c.ID] = c
+					bootCases++
+				}
+			}
+		}
+	}
 	firedSingles := map[int]cresult{}
 	exploreAll(r, singles, infos, budget, &suspects, firedSingles, "single faults")
 
@@ -293,8 +321,9 @@ func main() {
 		"quick: 3 smallest programs, thorough: all 6 plus, for the two smallest, every pair (fired single fault, fault at the first call to a live machine of every method:task/partition in the history observed after it fired); each case = Run + complete scan in a child process. "+
 		"A case is non-trivial iff every configured fault fired (its label occurred in that run and the victim existed); cases that do not fire are retried up to %d times and are not evidence. "+
 		"Worker.Run/Compile/Stat additionally get the variant replylate (handler ran, machine dies, the successful reply is delivered only after the driver has seen the machine stop). "+
+		"Machines lost while booting: the j-th machine started (j = 1..cluster size+1) and the first 2 / first 3 machines together are killed at their first Worker.FuncLocations call {before, after} x {M1, M2} (quick: smallest program, thorough: two smallest); fired iff every named machine existed and was killed there. "+
 		"Both tiers also run 2 spaced-losses histories under the production limit (M2S; producer f with 1 and with 2 shards): r=Run(f), then %d rounds of {kill every live machine while idle, wait until r's tasks are LOST, Run(g,r)+scan while the replacement receiving Worker.Run for r's shard-0 task is killed once}; every round must succeed with the reference rows; a history is non-trivial iff all rounds ran and both kills happened in each. "+
-		"distinct_nontrivial = distinct (program, label, variant[, other-victim]) over fired single faults + distinct fired pairs + complete spaced-losses histories", nFreeRuns, maxAttempts, spacedRounds)
+		"distinct_nontrivial = distinct (program, label, variant[, other-victim]) over fired single faults + distinct fired pairs + complete spaced-losses histories + distinct fired boot-loss cases (program, machines, variant)", nFreeRuns, maxAttempts, spacedRounds)
 	sizes := map[string]interface{}{}
 	for _, p := range progs {
 		inf := infos[p.name]
@@ -302,7 +331,9 @@ func main() {
 	}
 	r.Finish(ev.Coverage{
 		"evaluations":                         tl.evaluations,
-		"distinct_nontrivial":                 len(tl.firedKeys) + len(tl.pairFired) + len(tl.scenarioFull),
+		"distinct_nontrivial":                 len(tl.firedKeys) + len(tl.pairFired) + len(tl.scenarioFull) + len(tl.bootFired),
+		"boot_loss_cases":                     bootCases,
+		"boot_loss_fired_distinct":            len(tl.bootFired),
 		"spaced_losses_histories_run":         tl.scenarioRuns,
 		"spaced_losses_histories_complete":    len(tl.scenarioFull),
 		"spaced_losses_rounds_succeeded":      tl.scenarioRounds,
